@@ -23,10 +23,27 @@ type Obligation struct {
 	Solver  string   `json:"solver,omitempty"`
 	Ms      int64    `json:"ms"`
 	Path    int      `json:"path"`
-	Model   ModelMap `json:"model,omitempty"`
+	Model   *CexModel `json:"model,omitempty"`
 	Site    string   `json:"site,omitempty"`
 }
 type ModelMap map[string]interface{}
+
+// CexModel is a solver counterexample in replayable form.
+type CexModel struct {
+	Vars    ModelMap     `json:"vars"`
+	Reads   []ReadRec    `json:"reads,omitempty"`
+	Decodes []DecodeRec  `json:"decodes,omitempty"`
+}
+type ReadRec struct {
+	Store string `json:"store"`
+	Key   string `json:"key"` // hex
+	Val   string `json:"val"` // hex (abstract bytes when the value was decoded)
+}
+type DecodeRec struct {
+	Bz     string   `json:"bz"` // hex of the abstract encoding
+	Type   string   `json:"type"`
+	Fields ModelMap `json:"fields"`
+}
 
 type Shared struct {
 	prog      *ssa.Program
@@ -78,6 +95,9 @@ type Engine struct {
 	lastPanic  *goPanic
 	collisionFree bool
 	splitBound int
+	decodeMayFail bool
+	repBounds  map[string][2]int
+	ifaceCands map[string][]types.Type
 	curSite    string
 	assumeList map[string]bool
 	pathLabels []string
@@ -1189,6 +1209,9 @@ func (e *Engine) resetPath() {
 	e.noPanic = false
 	e.permute = false
 	e.pathLabels = nil
+	e.decodeMayFail = false
+	e.repBounds = map[string][2]int{}
+	e.ifaceCands = map[string][]types.Type{}
 }
 
 func (e *Engine) runHarness(fn *ssa.Function) {
